@@ -129,7 +129,12 @@ T_Exit == /\ IsEvent("exit")
 
 T_Yield == /\ IsEvent("yield")
            /\ LET t == E.task IN
-              IF E.tag = "script" \/ t \in Actor     \* (an actor's registry.* yield starts a nested Context::subscribe / publish)
+              IF t \in Actor /\ E.tag # "script" /\ ~IsYieldStep(t)
+              THEN \* a lock's scheduling point inside a handler's nested operation that the specification does not expect
+                   \* here (an extra probe): the task stays runnable and is judged by what it does next
+                   /\ G("y.cur", cur = t)
+                   /\ UNCHANGED vars
+              ELSE IF E.tag = "script" \/ t \in Actor     \* (an actor's registry.* yield starts a nested Context::subscribe / publish)
               THEN /\ G("y.cur", cur = t /\ t \in Actor)
                    /\ G("y.script", IsYieldStep(t))
                    /\ RunLoop(t)
